@@ -263,7 +263,7 @@ Definition h_pc (p : rpc) : bool :=
 Definition ext_pc (p : rpc) : bool :=
   match p with RFlushArm | RFlushSubmit | RFlushReset | RExtWait => true | _ => false end.
 
-Record Inv (s : st) : Prop := mk_inv {
+Record G1 (s : st) : Prop := mk_g1 {
   i_idle_flag : reg_main s = Idle ->
     fl_idle (flag (d s)) = true \/ has_notified (flag (d s)) = true;
   i_efd : reg_main s = Idle -> has_notified (flag (d s)) = true ->
@@ -277,19 +277,25 @@ Record Inv (s : st) : Prop := mk_inv {
   i_hot : h_pc (pc (r s)) = true -> rem (r s) = false -> hot (e s) = [];
   i_wait : pc (r s) = RWait -> nw (r s) = true /\ rem (r s) = false /\ ext (c s) = false;
   i_ext : ext_pc (pc (r s)) = true -> ext (c s) = true;
+  i_drained : drained (r s) <> 0 -> pc (r s) = RDrainPop \/ pc (r s) = RDrainSub
+}.
+
+Record G2 (s : st) : Prop := mk_g2 {
   i_main : forall i w, nth_error (wk s) i = Some w -> tgt w = None ->
     main_effective (wp w) = true -> seen w = false -> ob (reg_main s) s;
+  i_q : forall t i w, In (t, i) (queue (e s)) -> nth_error (wk s) i = Some w ->
+    notified_after (wp w) = true -> ob (reg_drain s) s
+}.
+
+Record G3 (s : st) : Prop := mk_g3 {
   i_qmem : forall t i, In (t, i) (queue (e s)) ->
     exists w, nth_error (wk s) i = Some w /\ tgt w = Some t /\ pushed (wp w) = true;
-  i_q : forall t i w, In (t, i) (queue (e s)) -> nth_error (wk s) i = Some w ->
-    notified_after (wp w) = true -> ob (reg_drain s) s;
   i_sched : forall t, nth_error (sched (e s)) t = Some true ->
     In t (hot (e s)) \/ (exists i, In (t, i) (queue (e s))) \/ pushing t (wk s) = true;
   i_seen : forall i w t, nth_error (wk s) i = Some w -> tgt w = Some t ->
     task_effective (wp w) = true -> seen w = false -> nth_error (sched (e s)) t = Some true;
   i_pending : pending (e s) =
     length (queue (e s)) + count (fun w => reserving (wp w)) (wk s) + drained (r s);
-  i_drained : drained (r s) <> 0 -> pc (r s) = RDrainPop \/ pc (r s) = RDrainSub;
   i_cap : length (queue (e s)) <= qcap (c s);
   i_shape : forall i w, nth_error (wk s) i = Some w ->
     match tgt w with
@@ -297,6 +303,8 @@ Record Inv (s : st) : Prop := mk_inv {
     | Some t => task_pc (wp w) = true /\ t < length (sched (e s))
     end
 }.
+
+Record Inv (s : st) : Prop := mk_inv { i_g1 : G1 s; i_g2 : G2 s; i_g3 : G3 s }.
 
 Arguments has_notified : simpl never.
 Arguments fl_wake : simpl never.
@@ -323,9 +331,13 @@ Definition targets_ok (ntasks : nat) (tg : list (option nat)) : Prop :=
 
 Lemma init_inv cf n tg : targets_ok n tg -> Inv (init cf n tg).
 Proof.
-  intros Hok. constructor; cbn; intros; try discriminate; try tauto; try lia.
-  - exfalso. eapply nth_error_repeat_false; eauto.
-  - apply nth_error_init_wk in H. rewrite H in H1. discriminate.
+  intros Hok. constructor; constructor; cbn; intros; try discriminate; try tauto; try lia;
+    try match goal with
+        | H : nth_error (repeat false _) _ = Some true |- _ =>
+          exfalso; eapply nth_error_repeat_false; exact H
+        | H : nth_error (map _ _) _ = Some ?w, H1 : _ (wp ?w) = true |- _ =>
+          apply nth_error_init_wk in H; rewrite H in H1; discriminate
+        end.
   - rewrite count_init. reflexivity.
   - pose proof H as H'. apply nth_error_map_inv in H'. destruct H' as (x & Hx & ->). cbn.
     destruct x as [t|]; [|reflexivity]. split; [reflexivity|].
@@ -338,9 +350,10 @@ Qed.
 Ltac dst s :=
   destruct s as [[ur ex qc mx] [fl ef ka sq np cq0] [qu pe sc sg ho] [p nw0 rm td dr bu] ws].
 
-Ltac dinv H :=
-  destruct H as [I_idle I_efd I_sqarm I_need I_todo I_arm I_hot I_wait I_ext I_main I_qmem I_q
-                 I_sched I_seen I_pending I_drained I_cap I_shape].
+Ltac dg1 H :=
+  destruct H as [I_idle I_efd I_sqarm I_need I_todo I_arm I_hot I_wait I_ext I_drained].
+Ltac dg2 H := destruct H as [I_main I_q].
+Ltac dg3 H := destruct H as [I_qmem I_sched I_seen I_pending I_cap I_shape].
 
 Ltac red_all :=
   cbn [c d e r wk uring ext qcap maxi flag efd karmed sqarm need_push cq queue pending sched sching
@@ -352,18 +365,21 @@ Ltac red_all :=
 Lemma in_app_l {A} (x : A) l1 l2 : In x l1 -> In x (l1 ++ l2).
 Proof. intros H. apply in_or_app. left. exact H. Qed.
 
-Lemma inv_kernel s l s' :
-  (l = LKNotify \/ l = LKOther \/ l = LKTerm) -> Inv s -> step s l = Some s' -> Inv s'.
+(* frame lemmas: a step that leaves a part of the state alone keeps the
+   invariants that only speak about that part *)
+Lemma g3_frame s s' :
+  c s' = c s -> e s' = e s -> wk s' = wk s -> drained (r s') = drained (r s) -> G3 s -> G3 s'.
 Proof.
-  intros Hl Hi Hs. dst s. dinv Hi. red_all.
-  destruct Hl as [->|[->| ->]]; unfold step, step_v in Hs; red_all.
-  - destruct (ur && ka && Nat.ltb 0 ef); [|discriminate]. inversion Hs; subst; clear Hs.
-    constructor; red_all; eauto.
-    intros Hu. specialize (I_arm Hu). intuition auto using in_app_l.
-  - inversion Hs; subst; clear Hs.
-    constructor; red_all; eauto.
-    intros Hu. specialize (I_arm Hu). intuition auto using in_app_l.
-  - destruct (ur && ka); [|discriminate]. inversion Hs; subst; clear Hs.
-    constructor; red_all; eauto.
-    intros Hu. right. right. right. left. apply in_or_app. right. left. reflexivity.
+  intros Hc He Hw Hd H. dg3 H.
+  constructor; rewrite ?Hc, ?He, ?Hw, ?Hd; assumption.
+Qed.
+
+Lemma g2_frame s s' :
+  wk s' = wk s -> queue (e s') = queue (e s) ->
+  (ob (reg_main s) s -> ob (reg_main s') s') ->
+  (ob (reg_drain s) s -> ob (reg_drain s') s') ->
+  G2 s -> G2 s'.
+Proof.
+  intros Hw Hq Hm Hd H. dg2 H.
+  constructor; rewrite ?Hw, ?Hq; intros; [apply Hm|apply Hd]; eauto.
 Qed.
